@@ -115,12 +115,14 @@ type BundlePropertyExperimenter struct {
 
 func (p *BundlePropertyExperimenter) Len() uint16 {
 	length := uint16(unsafe.Sizeof(p.Type) + unsafe.Sizeof(p.Length) + unsafe.Sizeof(p.ExperimenterID) + unsafe.Sizeof(p.ExperimenterType))
-	return length + uint16(len(p.data))
+	// a property occupies its length rounded up to a multiple of 8 (zero padding)
+	return (length + uint16(len(p.data)) + 7) / 8 * 8
 }
 
 func (p *BundlePropertyExperimenter) MarshalBinary() (data []byte, err error) {
-	data = make([]byte, 12)
+	data = make([]byte, p.Len())
 	n := 0
+	p.Length = 12 + uint16(len(p.data)) // excludes the padding
 	binary.BigEndian.PutUint16(data[n:], p.Type)
 	n += 2
 	binary.BigEndian.PutUint16(data[n:], p.Length)
@@ -129,14 +131,12 @@ func (p *BundlePropertyExperimenter) MarshalBinary() (data []byte, err error) {
 	n += 4
 	binary.BigEndian.PutUint32(data[n:], p.ExperimenterType)
 	n += 4
-	if p.data != nil {
-		data = append(data, p.data...)
-	}
+	copy(data[n:], p.data)
 	return
 }
 
 func (p *BundlePropertyExperimenter) UnmarshalBinary(data []byte) error {
-	if len(data) < int(p.Len()) {
+	if len(data) < 12 {
 		return errors.New("the []byte is too short to unmarshal a full BundlePropertyExperimenter message")
 	}
 	n := 0
